@@ -2,6 +2,7 @@ package main
 
 import (
 	"verifharness/checks/c01"
+	"verifharness/checks/c02"
 	"verifharness/checks/c09"
 	"verifharness/checks/c16"
 	"verifharness/checks/c18"
@@ -9,6 +10,7 @@ import (
 
 func init() {
 	registry["C01"] = entry{"exploration", c01.Run}
+	registry["C02"] = entry{"fault_enumeration", c02.Run}
 	registry["C09"] = entry{"exploration", c09.Run}
 	registry["C16"] = entry{"exploration", c16.Run}
 	registry["C18"] = entry{"exploration", c18.Run}
